@@ -253,6 +253,10 @@ def run(ctx) -> None:
     ctx.guard_as("R09.13", r06_2)
     from .c04 import r04_14
     ctx.guard_as("R09.14", r04_14)  # "a header equal to the given one": the transports add members to a header, they never remove one  # "with the matching key": each primitive asks the key for its own operation (verify needs "verify", not "sign")
+    from .c08 import r08_3 as _r08_3
+    ctx.guard_as("R09.17", _r08_3)  # claims of every length survive the JWE transport: AES-CBC pads with PKCS#7 from the library (a block-aligned JSON text gets a full block)
+    from .c13 import r13_1 as _r13_1
+    ctx.guard_as("R09.18", _r13_1)  # "the kid of a key picked from a key set": the private key that encodes and the public key that decodes derive the same kid
     from .c02 import r02_6 as _r02_6
     ctx.guard_as("R09.16", _r02_6)  # "only after the integrity check of the transport passed": every segment of the JWE is accounted for (an encrypted key where none belongs is refused)
     ctx.guard(r09_1)
